@@ -545,6 +545,13 @@ func (e *lfEngine) contract(fr *lfFrame, st *lfState, x *ssa.Call, name string) 
 		}
 		return out, true
 	case "crypto/rand.Read":
+		// fills the whole slice (or returns an error): in bit-provenance mode that is a store of
+		// every byte of the region
+		if e.bits && e.emitting() && len(args) == 1 {
+			if sv, ok := e.val(fr, st, args[0]).(vSlice); ok && sv.Org != nil && sv.Org.Name != "d" {
+				st.events = append(st.events, lfEvent{Kind: "wire", Name: e.renderVal(sv), Val: "random", Pos: x.Pos()})
+			}
+		}
 		return vTuple{e.fresh(st, types.Typ[types.Int], "n"), vNilable{ID: e.id()}}, true
 	case "crypto/aes.NewCipher":
 		return vTuple{vNilable{ID: e.id()}, vNilable{ID: e.id()}}, true
